@@ -121,7 +121,7 @@ def requests_for(cloud, grid, tier):
     from batch.cloud.resource_utils import valid_machine_types
 
     cpus = [None] + _cpu_strings()
-    mems = _memory_values(cloud, tier)
+    mems = _memory_values(cloud, 'quick' if grid == 'full' else tier)
     stos = _storage_values(cloud)
     out = []
     if grid == 'machine':
